@@ -523,7 +523,7 @@ def run(ctx):
             break
     if stats["missing_deserialize_n"]:
         res.violation("impl-monitor", "the tree has no qb_vsnprintf_deserialize_n: the decoder cannot be told where the "
-                      "record ends, so its reads are unbounded on damaged records (fixes/C14-deserialize-bounds.patch)",
+                      "record ends, so its reads are unbounded on damaged records (fixes/C14-4-deserialize-bounds.patch)",
                       {"script": ["R %s" % hx(b"%s"), "N 8 5a"]})
     res.rule = ("one serialize / deserialize / vsnprintf triple per case: grammar-driven formats (1-6 directives, all "
                 "conversions x flags x width {none, digits, *} x precision {none, ., digits, *} x length modifiers, "
@@ -536,8 +536,8 @@ def run(ctx):
                  "monitor": "props/C14.py: monitor (return ranges, NUL, decoded text == vsnprintf of the same process "
                             "when record and text fit); ASan/UBSan with exact-size heap buffers for every byte "
                             "outside the buffers",
-                 "presupposes_fixes": ["fixes/C14-serialize-directive-state.patch", "fixes/C14-serialize-string-room.patch",
-                                       "fixes/C14-deserialize-bounds.patch"]}
+                 "presupposes_fixes": ["fixes/C14-1-serialize-directive-state.patch", "fixes/C14-2-serialize-string-room.patch",
+                                       "fixes/C14-3-serialize-xc-last.patch", "fixes/C14-4-deserialize-bounds.patch"]}
     res.assumptions = ["libc's rendering of one conversion (snprintf with a one-directive format) is an oracle recorded "
                        "from the implementation run; contract used by the bounds theorems: at most n bytes are written",
                        "va_arg with a mismatching type is undefined in C: the round-trip theorem assumes the arguments "
